@@ -88,6 +88,13 @@ def gen_gt(rng, idx, small=True):
                 nm = rng.choice([b"+5", b"-1", b"1_0", b"12a", b" 7", b"7 ", b"0x10", b"1e3"]) + b"%d" % i    # distinct per file (no duplicate paths)
                 files.append(TFile(ln, [b".pad", nm], bytes(ln) if rng.chance(1, 2) else gen_content(rng, ln)))
                 continue
+            if k == 3 and rng.chance(1, 3):
+                # a file whose path repeats the tail of the export root: named like the torrent, or Data/<name>
+                ln = rng.range(1, 8)
+                path = rng.choice([[name], [b"Data", name], [b"Data"]])
+                if not any(f.path == path for f in files):
+                    files.append(TFile(ln, path, gen_content(rng, ln)))
+                    continue
             ln = 0 if k == 1 else rng.range(1, 12)
             depth = rng.range(1, 3)
             # components that are plain but look like traversal once trimmed or normalised are deliberate
@@ -332,6 +339,16 @@ def materialise(w, base):
             os.link(path_bytes(root, tgt), fp)
         else:
             os.symlink(path_bytes(root, tgt), fp)
+    if getattr(w, "mirror_export", None):
+        # an rsnapshot-style mirror of the file system from the root, below a scan directory: copies of the export images
+        # at <scan>/<mirror>/<absolute path of the image>
+        top = path_bytes(root, w.mirror_export)
+        for p, (content, grp) in sorted(w.files.items()):
+            if p[:len(w.export)] == w.export and len(p) > len(w.export):
+                fp = top + path_bytes(root, p)
+                os.makedirs(os.path.dirname(fp), exist_ok=True)
+                with open(fp, "wb") as f:
+                    f.write(content)
     for p in sorted(getattr(w, "fifos", [])):
         fp = path_bytes(root, p)
         os.makedirs(os.path.dirname(fp), exist_ok=True)
@@ -378,7 +395,11 @@ def snapshot(root, skip=(), follow=()):
             if comps + (f,) in skip:
                 continue
             fp = os.path.join(dp, f)
-            st = os.lstat(fp)
+            try:
+                st = os.lstat(fp)
+            except OSError:
+                files[comps + (f,)] = (b"<unreachable by path>", (0, len(files)))      # beyond PATH_MAX
+                continue
             if not (_stat.S_ISREG(st.st_mode) or _stat.S_ISLNK(st.st_mode)):
                 # a FIFO, socket or device: something that exists and is neither a directory nor a regular file the tool
                 # could read — presented as an empty file, never opened here
@@ -406,6 +427,10 @@ def rel(root, absolute_hex):
     """hex absolute path from the log -> component tuple relative to the sandbox root"""
     p = b"" if absolute_hex == "-" else bytes.fromhex(absolute_hex)
     rb = root.encode()
+    if b"/../" in p or p.endswith(b"/.."):
+        # what `dir/..` names is decided by the file system (dir may be a symbolic link): resolve up to the last `..`
+        cut = p.rfind(b"/..") + 3
+        p = os.path.realpath(p[:cut]) + p[cut:]
     if p == rb:
         return ()
     if p.startswith(rb + b"/"):
@@ -439,7 +464,10 @@ def execute(w, keep=False, timeout=30):
             os.symlink(path_bytes(root, tgt), fp)
         follow = sorted(getattr(w, "dir_links", {}))
         before_dirs, before_files = snapshot(root, set(ghosts), follow)
-        args = [C.TBH, "run", "--export", w.export_arg if w.export_arg is not None else os.path.join(root, *[c.decode("utf-8", "surrogateescape") for c in w.export])]
+        export_arg = w.export_arg if w.export_arg is not None else os.path.join(root, *[c.decode("utf-8", "surrogateescape") for c in w.export])
+        if export_arg.startswith("\x00ABS/"):
+            export_arg = root + "/" + export_arg[len("\x00ABS/"):]
+        args = [C.TBH, "run", "--export", export_arg]
         scan_args = w.scan_args if w.scan_args is not None else [os.path.join(root, *[c.decode("utf-8", "surrogateescape") for c in s]) for s in w.scan]
         scan_args = [root + "/" + a[len("\x00ABS/"):] if a.startswith("\x00ABS/") else a for a in scan_args]   # (not os.path.join: a leading "/" must stay a redundant separator)
         r_scan_abs = [a.startswith("/") for a in scan_args]
@@ -497,6 +525,8 @@ def parse_output(r):
             r.counters.append((int(m.group(1)), int(m.group(2)), int(m.group(3))))
             r.progress_total = int(m.group(4))
             continue
+        if line.startswith("CWD "):
+            r.cwd_changed = line.split()[1] != "same"
         if line.startswith("RESULT "):
             r.result = line.split()[1]
         elif line.startswith("LOADED "):
@@ -556,7 +586,7 @@ def build_lines(r):
             inode_tok += [str(inos[ino]), hx(content)]
         files_tok += [ptok(p), str(inos[ino])]
     req = ["run", "H", str(len(w.docs))] + [hx(d) for d in w.docs]
-    exp_abs = w.export_arg is None or w.export_arg.startswith("/")
+    exp_abs = w.export_arg is None or w.export_arg.startswith("/") or w.export_arg.startswith("\x00ABS/")
     req += ["E", "1" if exp_abs else "0", ptok(w.export)]
     req += ["S", str(len(w.scan))]
     for i, s in enumerate(w.scan):
@@ -838,7 +868,10 @@ def execute_cli(w, timeout=60):
     base = tempfile.mkdtemp(prefix="tbc-", dir=SHM)
     try:
         root, tpaths = materialise(w, base)
-        args = [C.REPO_BIN, "--export", w.export_arg if w.export_arg is not None else os.path.join(root, *[c.decode("utf-8", "surrogateescape") for c in w.export])]
+        export_arg = w.export_arg if w.export_arg is not None else os.path.join(root, *[c.decode("utf-8", "surrogateescape") for c in w.export])
+        if export_arg.startswith("\x00ABS/"):
+            export_arg = root + "/" + export_arg[len("\x00ABS/"):]
+        args = [C.REPO_BIN, "--export", export_arg]
         scan_args = w.scan_args if w.scan_args is not None else [os.path.join(root, *[c.decode("utf-8", "surrogateescape") for c in s]) for s in w.scan]
         scan_args = [root + "/" + a[len("\x00ABS/"):] if a.startswith("\x00ABS/") else a for a in scan_args]
         args += ["--scan"] + scan_args
@@ -1206,6 +1239,117 @@ def gen_world_short_image(rng):
     w.add_file((b"scan0", b"complete.bin"), f.content)
     w.add_file(tuple(g.target(w.export, f)), f.content[: L * rng.range(1, n - 1)])
     w.add_file((b"bystander", b"note.txt"), b"do not touch")
+    return w
+
+
+def gen_world_zero_piece_stale(rng):
+    """C11 / C02: a piece whose true content is all zeros, an export image of full length holding STALE non-zero bytes
+    there (what a cut-off or faulty download leaves), the correct file in a scan directory: the zeros must be written"""
+    w = World()
+    L = rng.choice([2, 3, 4])
+    n = rng.range(3, 5)
+    z = rng.below(n)
+    content = b"".join(bytes(L) if i == z else gen_content(rng, L) for i in range(n))
+    multi = rng.chance(1, 2)
+    if multi:
+        cut = rng.range(1, len(content) - 1)
+        files = [TFile(cut, [b"p0"], content[:cut]), TFile(len(content) - cut, [b"p1"], content[cut:])]
+    else:
+        files = [TFile(len(content), [b"zeros.bin"], content)]
+    g = GT(b"zeros.bin" if not multi else b"zz", L, files, multi)
+    w.gts = [g]; w.docs = [g.doc]
+    w.dirs.add(w.export)
+    w.scan = [(b"scan0",)]
+    for i, f in enumerate(files):
+        w.add_file((b"scan0", b"good%d" % i), f.content)
+        stale = bytes((x ^ 0xAA) if (z * L <= sum(ff.length for ff in files[:i]) + k < (z + 1) * L) else x for k, x in enumerate(f.content))
+        w.add_file(tuple(g.target(w.export, f)), stale)
+    w.add_file((b"bystander", b"note.txt"), b"do not touch")
+    w.tag = "stale bytes where the torrent has zeros"
+    return w
+
+
+def gen_world_sparse_placeholder(rng):
+    """C14: empty export placeholders of files of several kilobytes, one of them all zeros in the torrent, with the resize
+    flag: the pre-flight extends them (sparsely: no data blocks) and they then count as sources"""
+    w = World()
+    la, lb = rng.range(4200, 9000), rng.range(50, 300)
+    fa = TFile(la, [b"a.bin"], bytes(la))
+    fb = TFile(lb, [b"b.bin"], gen_content(rng, lb))
+    g = GT(b"sparse", 16384, [fa, fb], True)
+    w.gts = [g]; w.docs = [g.doc]
+    w.dirs.add(w.export)
+    w.scan = [(b"scan0",)]
+    w.add_file((b"scan0", b"b.bin"), fb.content)
+    w.add_file(tuple(g.target(w.export, fa)), b"")
+    w.add_file((b"bystander", b"note.txt"), b"do not touch")
+    w.resize = True
+    w.tag = "empty placeholder of a zero file"
+    return w
+
+
+def gen_world_mirrored_export(rng):
+    """C04: every piece already verifies in the export tree, and a scan directory holds a mirror of the file system from
+    the root (so a candidate's path ENDS with the absolute export path, byte-wise); the run must write nothing"""
+    w = World()
+    n = rng.range(1, 3)
+    files = [TFile(ln, [b"album", b"t%d.bin" % i], gen_content(rng, ln)) for i, ln in enumerate([rng.range(2, 9) for _ in range(n)])]
+    g = GT(b"mirrored", rng.choice([2, 4, 8]), files, True)
+    w.gts = [g]; w.docs = [g.doc]
+    w.dirs.add(w.export)
+    w.scan = [(b"backup",)]
+    w.add_file((b"backup", b".keep"), b"k")
+    for f in files:
+        w.add_file(tuple(g.target(w.export, f)), f.content)
+    w.mirror_export = (b"backup", b"daily.0")
+    w.add_file((b"bystander", b"note.txt"), b"do not touch")
+    w.threads = rng.choice([1, 3])
+    w.tag = "mirror of the export tree below a scan directory"
+    return w
+
+
+def gen_world_dotdot_after_link(rng):
+    """C03: the export (or a scan) argument contains `..` after a component that is a symbolic link to a directory: the
+    directory meant is the one the file system resolves, not the one a lexical clean-up yields"""
+    w = World()
+    ln = rng.range(3, 9)
+    f = TFile(ln, [b"payload.bin"], gen_content(rng, ln))
+    g = GT(b"payload.bin", rng.choice([2, 4]), [f], False)
+    w.gts = [g]; w.docs = [g.doc]
+    w.export = (b"real", b"out")                      # what <root>/links/l/../out IS
+    w.dirs |= {(b"real",), (b"real", b"sub"), (b"real", b"out"), (b"links",), (b"out",)}
+    w.dir_links = {(b"links", b"l"): (b"real", b"sub")}
+    w.export_arg = "\x00ABS/links/l/../out"
+    w.scan = [(b"scan0",)]
+    w.add_file((b"scan0", b"copy.bin"), f.content)
+    # the lexically "cleaned" directory exists too and holds a file of the declared length at the image's place
+    w.add_file((b"out", g.hexhash, b"Data", b"payload.bin"), gen_content(rng, ln))
+    w.add_file((b"bystander", b"note.txt"), b"do not touch")
+    w.resize = rng.chance(1, 2)
+    w.threads = rng.choice([1, 3])
+    w.tag = "export argument with .. after a symbolic link"
+    return w
+
+
+def gen_world_path_max(rng):
+    """C01 / C03: export paths of PATH_MAX bytes or more whose directories are shorter (every component <= 255 bytes): the
+    tool cannot open them by path and must report the pieces as faulted — without tricks that change process state.
+    Judged on the outcome (the model has no path length limit)."""
+    w = World()
+    comp = lambda c: bytes([c]) * 250
+    deep = [comp(97 + i) for i in range(16)]          # 16 * 251 = 4016 bytes of directories
+    files = []
+    for d in (b"A", b"B"):
+        files.append(TFile(8, [d] + deep + [b"track-" + b"x" * 90 + b".bin"], gen_content(rng, 8)))
+    g = GT(b"deep", 4, files, True)
+    w.gts = [g]; w.docs = [g.doc]; w.has_truth = False
+    w.dirs.add(w.export)
+    w.scan = [(b"scan0",)]
+    for i, f in enumerate(files):
+        w.add_file((b"scan0", b"src%d" % i), f.content)
+    w.add_file((b"bystander", b"note.txt"), b"do not touch")
+    w.threads = rng.choice([1, 2, 4])
+    w.tag = "export paths beyond PATH_MAX"
     return w
 
 
